@@ -10,13 +10,16 @@
 
 #if defined(ASCON_BACKEND_SLICED32)
 #define CANON_W(st, i) VINTERLEAVE((st)->W[2 * (i)], (st)->W[2 * (i) + 1])
+#define CANON_W_OLD(st, i) VINTERLEAVE(__CPROVER_old((st)->W[2 * (i)]), __CPROVER_old((st)->W[2 * (i) + 1]))
 #define VERIF_BACKEND_NAME "sliced32"
 #elif defined(ASCON_BACKEND_SLICED64)
 /* host word holds the numeric value of the big-endian word */
 #define CANON_W(st, i) ((uint64_t)(st)->S[(i)])
+#define CANON_W_OLD(st, i) ((uint64_t)__CPROVER_old((st)->S[(i)]))
 #define VERIF_BACKEND_NAME "sliced64"
 #elif defined(ASCON_BACKEND_DIRECT_XOR)
 #define CANON_W(st, i) VBE64((st)->B + 8 * (i))
+#define CANON_W_OLD(st, i) VBE64_OLD((st)->B + 8 * (i))
 #define VERIF_BACKEND_NAME "direct-xor"
 #else
 #error "no canonical view for this backend"
@@ -24,6 +27,7 @@
 
 /* canonical byte i (0..39) */
 #define CANON_B(st, i) VBYTE64(CANON_W((st), (i) / 8), (i) % 8)
+#define CANON_B_OLD(st, i) VBYTE64(CANON_W_OLD((st), (i) / 8), (i) % 8)
 
 static inline spec_state verif_canon(const ascon_state_t *st)
 {
